@@ -7,6 +7,7 @@ import (
 	"rosim/simrt"
 )
 
+//go:norace
 func Gosched() {
 	k := simrt.K
 	if k == nil {
